@@ -1115,6 +1115,31 @@ func runHist(rng *rand.Rand, kind string, cal calib, seq *int, gcOnly, reopen bo
 				hc.Fetch = append(hc.Fetch, id)
 			}
 		}
+		// the same with a limit on the number of entries: whatever part is
+		// returned, it is in the same (newest first) order, each entry once
+		if len(es) >= 2 {
+			lim, err := log.FetchEntriesFromFiles(0, math.MaxInt64, 1+len(es)/2, nil)
+			if err != nil {
+				panic(err)
+			}
+			// lim must be a subsequence of the unlimited listing, in its order
+			okOrder, j := len(lim) > 0, 0
+			for _, e := range lim {
+				for j < len(es) && !(es[j].Message == e.Message && es[j].Time == e.Time) {
+					j++
+				}
+				if j == len(es) {
+					okOrder = false
+					break
+				}
+				j++
+			}
+			if !okOrder {
+				// reported through the history oracle: an entry no history contains
+				hc.Fetch = append(hc.Fetch, -1)
+				hc.Note += " [FetchEntriesFromFiles with a limit returned entries out of order or none]"
+			}
+		}
 	}
 	return hc, !r.glitch()
 }
